@@ -12,6 +12,7 @@ package membersim
 import (
 	"context"
 	"encoding/json"
+	"errors"
 	"fmt"
 	"os"
 	"os/exec"
@@ -327,6 +328,7 @@ const (
 func (t tri) String() string { return [...]string{"no", "yes", "maybe"}[t] }
 
 type node struct {
+	store     *simkit.RestoreCountingDS
 	slot, gen int
 	host      host.Host
 	base      string
@@ -382,6 +384,7 @@ type world struct {
 	pend         []*pending
 	lastLeader   int
 	amnesia      bool // see joinOp
+	wedgedSeen   bool // see wedged()
 }
 
 // wop is one write of the history: the model is a register per CID under
@@ -488,7 +491,8 @@ func (w *world) start(i int, base string, staging bool, initPeers []peer.ID) *no
 		panic(err)
 	}
 	n.rcfg = w.mkRaftCfg(filepath.Join(base, "raft"), initPeers)
-	cons, err := raft.NewConsensus(n.host, n.rcfg, dssync.MutexWrap(ds.NewMapDatastore()), staging)
+	n.store = simkit.NewRestoreCountingDS(dssync.MutexWrap(ds.NewMapDatastore()))
+	cons, err := raft.NewConsensus(n.host, n.rcfg, n.store, staging)
 	if err != nil {
 		panic(fmt.Sprintf("raft.NewConsensus: %v", err))
 	}
@@ -542,7 +546,10 @@ func (w *world) start(i int, base string, staging bool, initPeers []peer.ID) *no
 			case <-cl.Done():
 			case <-ctx.Done():
 			case <-time.After(ipfscluster.ReadyTimeout + 60*time.Second):
-				if n.alive && !n.stuck {
+				if n.alive && !n.stuck && w.wedged() {
+					n.stuck = true
+					w.run.Probe("not_judged_raft_wedged")
+				} else if n.alive && !n.stuck {
 					n.stuck = true
 					w.run.Violate("C17/gave_up_but_never_stopped", "", "%s did not become ready within ReadyTimeout (%v); 60 s later it is neither ready nor shut down", n.who, ipfscluster.ReadyTimeout)
 				}
@@ -561,13 +568,34 @@ func (w *world) start(i int, base string, staging bool, initPeers []peer.ID) *no
 	return n
 }
 
+// listOf reads a peer's pinset, bounded like peersOf.
+func (w *world) listOf(n *node) ([]*api.Pin, error) {
+	type res struct {
+		l   []*api.Pin
+		err error
+	}
+	ch := make(chan res, 1)
+	go func() {
+		st, err := n.cons.State(context.Background())
+		if err != nil {
+			ch <- res{nil, err}
+			return
+		}
+		l, err := st.List(context.Background())
+		ch <- res{l, err}
+	}()
+	select {
+	case r := <-ch:
+		return r.l, r.err
+	case <-time.After(20 * time.Second):
+		w.run.Probe("state_call_unanswered")
+		return nil, errors.New("Consensus.State() has not answered after 20 s")
+	}
+}
+
 func (w *world) pinsetOf(n *node) map[string]string {
 	out := map[string]string{}
-	st, err := n.cons.State(context.Background())
-	if err != nil {
-		return nil
-	}
-	l, err := st.List(context.Background())
+	l, err := w.listOf(n)
 	if err != nil {
 		return nil
 	}
@@ -578,9 +606,27 @@ func (w *world) pinsetOf(n *node) map[string]string {
 }
 
 func (w *world) peersOf(n *node) ([]int, error) {
-	ps, err := n.cons.Peers(context.Background())
-	if err != nil {
-		return nil, err
+	// (bounded: a consensus component whose Raft instance has stopped behind its
+	// back never answers, and the plan must go on)
+	type res struct {
+		ps  []peer.ID
+		err error
+	}
+	ch := make(chan res, 1)
+	go func() {
+		ps, err := n.cons.Peers(context.Background())
+		ch <- res{ps, err}
+	}()
+	var ps []peer.ID
+	select {
+	case r := <-ch:
+		if r.err != nil {
+			return nil, r.err
+		}
+		ps = r.ps
+	case <-time.After(20 * time.Second):
+		w.run.Probe("peers_call_unanswered")
+		return nil, errors.New("Consensus.Peers() has not answered after 20 s")
 	}
 	var out []int
 	for _, p := range ps {
@@ -716,6 +762,26 @@ func copyPins(m map[int]map[string]bool) map[int]map[string]bool {
 }
 
 func (w *world) quiet() bool { return w.faultsActive == 0 }
+
+// wedged: some running peer is being sent the same snapshot over and over
+// (hashicorp/raft v1.1.1 with TrailingLogs smaller than the stale suffix a
+// former leader kept: DESIGN 0.5). Leadership then keeps changing, calls that
+// need the leader hang or fail and Shutdown can wait behind them for ever; none
+// of that is ipfs-cluster's doing, so progress, agreement and termination are not
+// judged from then on (sticky).
+func (w *world) wedged() bool {
+	if w.wedgedSeen {
+		return true
+	}
+	for _, n := range w.cur {
+		if n != nil && n.alive && n.store != nil && n.store.Consecutive() >= 6 {
+			w.wedgedSeen = true
+			w.run.Probe("raft_snapshot_install_loop_seen")
+			return true
+		}
+	}
+	return false
+}
 
 // calm: no partition and every member is up.
 func (w *world) calm() bool {
@@ -1155,8 +1221,8 @@ func (w *world) removeOp(s Step) {
 		}
 	}
 	var heldPins []held
-	if st, err := at.cons.State(context.Background()); err == nil {
-		if l, err := st.List(context.Background()); err == nil {
+	if l, err := w.listOf(at); err == nil {
+		{
 			for _, p := range l {
 				for _, a := range p.Allocations {
 					if a == w.id(s.Slot) {
@@ -1211,14 +1277,21 @@ func (w *world) removeOp(s Step) {
 		if s.At == s.Slot {
 			run.Probe("self_removed")
 		}
-		checkRehoming = repin && quietBefore && was == yes
+		// re-pinning is submitted by the peer that was asked, through the leader: it
+		// needs one throughout (for the seconds after a partition a cut-off peer has
+		// none: the leader backs off before it reaches it again, F15/F16); failures of
+		// it are logged and the removal goes on, by design
+		checkRehoming = repin && quietBefore && was == yes && leaderBefore >= 0 && w.agreedLeader() >= 0
+		if repin && quietBefore && was == yes && !checkRehoming {
+			run.Probe("rehoming_not_judged_no_stable_leader")
+		}
 		// the removed peer stops itself and discards its consensus data
 		if tgtUp && quietBefore && was == yes && !tgt.readySeen {
 			// still starting: it does not watch the peerset before it is ready
 			run.Probe("removed_before_ready")
 			w.zombies = true
 		} else if tgtUp && quietBefore && was == yes {
-			w.judgeRemoved(tgt)
+			w.judgeRemoved(tgt, isLeader)
 		} else if tgtUp {
 			w.zombies = true
 			run.Probe("removed_peer_not_judged_under_faults")
@@ -1249,8 +1322,8 @@ func (w *world) removeOp(s Step) {
 	w.settle(fmt.Sprintf("after the removal of p%d at p%d", s.Slot, s.At))
 	// re-homing, read at the leader once the change has spread
 	if l := w.leader(); checkRehoming && l != nil && w.quiet() && !run.Violated() {
-		if st, err := l.cons.State(context.Background()); err == nil {
-			if lst, err := st.List(context.Background()); err == nil {
+		if lst, err := w.listOf(l); err == nil {
+			{
 				now := map[string]*api.Pin{}
 				for _, p := range lst {
 					now[p.Cid.String()] = p
@@ -1305,11 +1378,13 @@ func (w *world) idxs(ps []peer.ID) []int {
 
 // judgeRemoved: a peer that was up and connected when it was removed stops
 // itself (it watches the peerset) and cleans its Raft data.
-func (w *world) judgeRemoved(n *node) {
+func (w *world) judgeRemoved(n *node, knows bool) {
 	// Raft makes one best-effort attempt to send a removed server the entry
 	// that removes it. What this property asks of ipfs-cluster starts when the
 	// peer's own consensus component reports a peerset without it.
-	heard := false
+	// (a leader that committed its own removal knows of it whatever its consensus
+	// component answers afterwards)
+	heard := knows
 	for i := 0; i < 100 && !heard; i++ {
 		select {
 		case <-n.cl.Done():
@@ -1341,6 +1416,11 @@ func (w *world) judgeRemoved(n *node) {
 	case <-n.cl.Done():
 	case <-time.After(bound):
 		if !w.quiet() {
+			return
+		}
+		if w.wedged() {
+			w.run.Probe("not_judged_raft_wedged")
+			w.zombies = true
 			return
 		}
 		ps, err := w.peersOf(n)
@@ -1381,7 +1461,11 @@ func (w *world) stopOp(s Step) {
 			buf := make([]byte, 16<<20)
 			os.Stderr.Write(buf[:runtime.Stack(buf, true)])
 		}
-		w.run.Violate("C17/shutdown_never_returns", "", "Shutdown of %s has not returned after 120 s (ready=%v)", n.who, n.readySeen)
+		if w.wedged() {
+			w.run.Probe("not_judged_raft_wedged")
+		} else {
+			w.run.Violate("C17/shutdown_never_returns", "", "Shutdown of %s has not returned after 120 s (ready=%v)", n.who, n.readySeen)
+		}
 		n.alive = false
 		n.graceful = false
 		n.stuck = true
@@ -1395,10 +1479,80 @@ func (w *world) stopOp(s Step) {
 		w.run.Probe("leave_on_shutdown")
 		// best effort by design: whether it left is read from the others
 		w.member[s.Slot] = maybe
-		if !hasRaftData(n.rcfg.DataFolder) {
-			w.run.Probe("left_peer_data_cleaned")
+		// did it leave? The leader's committed view tells (leaving is best effort:
+		// without a leader it fails, and the peer is then still a member)
+		sleep(time.Duration(4*w.plan.Knob("heartbeat_ms", 200)+500) * time.Millisecond)
+		listed, known := false, false
+		lists := func(m *node) (bool, bool) {
+			ps, perr := w.peersOf(m)
+			if perr != nil {
+				return false, false
+			}
+			for _, x := range ps {
+				if x == s.Slot {
+					return true, true
+				}
+			}
+			return false, true
+		}
+		if l := w.leader(); l != nil && l.slot != s.Slot && w.quiet() {
+			listed, known = lists(l)
 		} else if w.quiet() {
-			w.run.Violate("C17/removed_peer_keeps_data", "leave", "%s left the cluster on shutdown but its Raft data folder still holds data", n.who)
+			// no leader (the leaver may have been needed for the quorum): a removal
+			// that was committed is known to a majority of those who stay, and all of
+			// them were up when it happened; if every member that is up still lists
+			// the peer, it did not leave
+			ups, all := 0, true
+			for i := 0; i < w.slots; i++ {
+				if i == s.Slot || w.member[i] != yes {
+					continue
+				}
+				if m := w.up(i); m != nil {
+					if in, ok := lists(m); ok {
+						ups++
+						all = all && in
+					}
+				}
+			}
+			if ups > 0 && all {
+				listed, known = true, true
+			}
+			// nobody else is running at all: a removal needs a majority of those who
+			// stay, so it cannot have been committed
+			others, running := 0, 0
+			for i := 0; i < w.slots; i++ {
+				if i == s.Slot || w.member[i] == no {
+					continue
+				}
+				others++
+				if m := w.cur[i]; m != nil && m.alive {
+					running++
+				}
+			}
+			if others > 0 && running == 0 {
+				listed, known = true, true
+				w.run.Probe("left_with_nobody_else_running")
+			}
+		}
+		wiped := !hasRaftData(n.rcfg.DataFolder)
+		switch {
+		case known && !listed && wiped:
+			w.run.Probe("left_peer_data_cleaned")
+			w.member[s.Slot] = no
+		case known && !listed && !wiped:
+			w.run.Violate("C17/removed_peer_keeps_data", "leave", "%s left the cluster on shutdown (the leader no longer lists it) but its Raft data folder still holds data", n.who)
+		case known && listed && wiped:
+			// still a voter for the others, and it will come back without its log:
+			// such a peer can elect a leader that lacks committed entries (an
+			// acknowledged pin was lost that way: replay C17_pinset_lost-982926881082)
+			w.run.Violate("C17/member_wiped_its_data", "leave failed", "%s was shut down with leave_on_shutdown, could not leave (%s) and discarded its Raft data all the same", n.who, map[bool]string{true: "the leader still lists it", false: "there is no leader, and every other member that is running - if any - still lists it"}[w.leader() != nil])
+		case known && listed:
+			w.run.Probe("leave_failed_data_kept")
+			w.member[s.Slot] = yes
+		default:
+			if wiped {
+				w.run.Probe("left_peer_data_cleaned")
+			}
 		}
 	}
 	w.settle(fmt.Sprintf("after p%d stopped", s.Slot))
@@ -1515,6 +1669,10 @@ func (w *world) agreement(what string, bound time.Duration) {
 		}
 		sleep(500 * time.Millisecond)
 		w.judgeReady()
+	}
+	if w.wedged() {
+		w.run.Probe("not_judged_raft_wedged")
+		return
 	}
 	w.run.Violate("C17/peersets_disagree", "", "%s, %v after the last change with every link up: %s", what, bound, last)
 }
@@ -1676,6 +1834,10 @@ func (w *world) finale() {
 			run.Probe("final_write_retried")
 			sleep(2 * time.Second)
 		}
+		if (!ret || err != nil) && w.wedged() {
+			run.Probe("not_judged_raft_wedged")
+			return
+		}
 		if !ret || err != nil {
 			run.Violate("C17/no_progress_after_faults", "", "120 s after the last fault, with every member up and connected, pins at %s keep failing: %v (returned=%v)", any.who, err, ret)
 			return
@@ -1722,6 +1884,10 @@ func (w *world) finale() {
 				}
 				return missing[i].c < missing[j].c
 			})
+			if w.wedged() {
+				run.Probe("not_judged_raft_wedged")
+				return
+			}
 			m := missing[0]
 			run.Violate("C17/pinset_lost", "", "at the end (120 s after the last write) %s lists cid%d as %q; the acknowledged history allows %s", m.who, m.c, m.g, fmtSet(m.set))
 			return
